@@ -83,6 +83,9 @@ CHECKS = {
  'C45': dict(cat='proof', tech='deductive: ghost OPENED/CLOSED postconditions with shutdown() injected at the blocking calls of every opener, on the real Cluster.shutdown/connect/on_*, Session.shutdown/submit/add_or_renew_pool, ControlConnection.shutdown/_reconnect/_try_connect/_set_new_connection, HostConnection.shutdown/_replace, HostConnectionPool.shutdown/_add_conn_if_under_max, _Scheduler, ResponseFuture.send_request',
              text='Per-layer contracts: each shutdown closes what the layer owns exactly once and is idempotent; each opener closes its new connection/pool when shutdown interleaved; nothing is scheduled, submitted or connected after the flag; requests on a shut-down session complete with NoHostAvailable. Global quiescence is the conjunction (meta-argument); interference points are the blocking calls only.',
              ref='DESIGN.md §4 C45'),
+ 'C47': dict(cat='proof', tech='deductive: typestate postconditions (ghost phase) on the real Connection handshake handlers _send_options_message/_handle_options_response/_send_startup_message/_handle_startup_response/_handle_auth_response/_enable_compression/_enable_checksumming/defunct/factory, reply sequences and configurations enumerated as symbolic choices',
+             text='Every reply sequence (up to 6 replies; the challenge loop returns to a verified state) x authenticator kind x protocol version is checked against the protocol state machine; compression negotiation over all setting/local/remote/version combinations; factory outcome per handshake state. Wire encoding of the handshake messages is C03/C05.',
+             ref='DESIGN.md §4 C47'),
 }
 
 NA_REASON = {}
